@@ -18,7 +18,7 @@ LEVEL = {
  'C10': ("Theorems over ALL valid histories (adversarial allocator, drop, gc) and ALL thread interleavings of the cache machine: cached run = cache-less reference run (C10_transparent), order independence, schedules, LRU refinement; negation proved for an id-only key. Key form and lookup-or-build step are facts extracted from the source. PARTIAL: GIL atomicity assumed. Tie: random histories replayed on the real interpreter with dynamically created, collected and re-created types (incl. dataclasses) and a long-lived handlers mapping that changes between calls; the looked-up converter must behave (parse, serialise a sample) like one freshly built.", "8 C10"),
  'C11': ("Theorems: union = firstOk (left-most accepting member), accept iff some member accepts, later members irrelevant, nesting = flattening, one diagnostic child per member, serialiser uses the left-most accepting member. Tie: each member run alone on the implementation and compared with the union.", "8 C11"),
  'C12': ("Theorems: dispatch by tag alone for the three layouts, body errors of the chosen variant only, bad/absent/unhashable tag is a ConvertError naming the tag (guards from extracted facts), duplicates refused at build, serialise/extract symmetry per layout. Tie: correspondence on tagged scenarios.", "8 C12"),
- 'C13': ("Theorems: accept iff inner accepts and condition true on the converted value, raise = failure with cause, bundling, all/any/not with Python short-circuit order, stock conditions = arithmetic predicates from the extracted operators (decide), inclusive ranges, NaN, serialisation ignores conditions. PARTIAL: numpy shape/broadcast conditions not claimed.", "8 C13"),
+ 'C13': ("Theorems: accept iff inner accepts and condition true on the converted value, raise = failure with cause, bundling, all/any/not with Python short-circuit order, stock conditions = arithmetic predicates from the extracted operators (decide), inclusive ranges, NaN, serialisation ignores conditions. Array conditions: shape() is tuple equality, broadcastable() is numpy's rule, and the pure-Python fallback as the source now reads equals it for all shapes (C13_fallback_source, rule read from the source). numpy.broadcast_shapes itself is the reference (bcast stream compares with it).", "8 C13"),
  'C14': ("Theorems about the construction model (constructor = per-field convert, defaults fresh via call counter, set-record exact on all three paths, unchecked verbatim, hook runs once); K6 finding as negation. Tie: constructor / from_data / make_unchecked correspondence over all subsets of supplied fields.", "8 C14"),
  'C15': ("Decision-table theorems for name resolution and layouts over the processed-class model; make_field rules extracted. Tie: class processing compared field by field with the live __pane_info__.", "8 C15"),
  'C16': ("Theorems for ANY field value type: eq definition / equivalence, lexicographic order, trichotomy, order-equality consistency, eq => equal hash, repr; the extracted 16-row hash rule table equals CPython's own (decide); documented class options accepted. Tie: cmp/hash/copy/replace/setattr on generated classes.", "8 C16"),
@@ -54,7 +54,7 @@ def main(claimed, na_reasons):
         'engines': [{'name': 'lean4-model+extract+corr', 'path': 'lean/ tools/', 'serves_properties': sorted(claimed),
                      'kind_free_text': 'hand-written Lean 4 model + theorems; translator regenerating facts from the source; differential correspondence harness'}],
         'checks': checks,
-        'notes': 'See DESIGN.md. fix: commits in /repo repair 27 genuine defects (D1-D12, D14, D15, D17-D29; ten of them found during the build, DESIGN.md 13.3) (known_findings.json, status=fixed); status=known entries are printed as KNOWN-FINDING.',
+        'notes': 'See DESIGN.md. fix: commits in /repo repair 28 genuine defects (D1-D12, D14, D15, D17-D30; eleven of them found during the build, DESIGN.md 13.3) (known_findings.json, status=fixed); status=known entries are printed as KNOWN-FINDING.',
         'not_applicable': [{'property_id': p, 'reason': r} for p, r in sorted(na_reasons.items())],
     }
     json.dump(m, open(os.path.join(VERIF, 'MANIFEST.json'), 'w'), indent=1)
